@@ -470,6 +470,20 @@ func globalStoreScan(lr *loadResult, modPath string) (scanned int, stores []stri
 						stores = append(stores, fmt.Sprintf("%s stores to %s", f.String(), g.String()))
 					}
 				}
+				// package-level maps and channels (and what they hold) are shared mutable state of a kind the
+				// frame analysis does not model: any use outside initialisation is reported
+				if !init {
+					for _, op := range in.Operands(nil) {
+						if g, ok := (*op).(*ssa.Global); ok && g.Pkg != nil && strings.HasPrefix(g.Pkg.Pkg.Path(), modPath) {
+							if pt, ok := g.Type().(*types.Pointer); ok {
+								switch pt.Elem().Underlying().(type) {
+								case *types.Map, *types.Chan:
+									stores = append(stores, fmt.Sprintf("%s uses the package-level %s %s outside initialisation (shared mutable state: its entries and the objects they hold are not covered by the read-only frame argument)", f.String(), pt.Elem().Underlying().String(), g.String()))
+								}
+							}
+						}
+					}
+				}
 				// slices of a global array handed to copy/append-style writers are covered by the frame checks
 			}
 		}
